@@ -205,7 +205,13 @@ class Check(PropertyCheck):
                   "equals membership in the interpreter's own network constants (_loopback_network, _private_networks, "
                   "_public_network, ::1) under the 3.12.1 definitions of is_loopback / is_private / is_global (prefix-membership "
                   "lemma inNet_iff + row check by decide +kernel), classOf_eq_membership / refused_iff_membership restate the "
-                  "decision over those networks, effective_not_mapped and parseV4_wf close the side conditions for IPv4. The "
+                  "decision over those networks; the side condition `wf` (value below 2^32 / 2^128) is now a THEOREM of the parser "
+                  "model (parseV4_wf, parseV6Int_lt, parseV6_wf, parseIp_wf via hextet and fold bounds), so "
+                  "classOf_eq_membership_parsed, refused_iff_membership_parsed and verdict_total hold for every peer text "
+                  "without side condition. Read-back: parseIp_dotted / parseIp_mapped prove that the parser model reads the OS' "
+                  "text forms `a.b.c.d` and `::ffff:a.b.c.d` back as the address for all a,b,c,d < 256, so "
+                  "canonical_forms_equal_plain (plain = %zone = mapped = mapped%zone, no parse hypotheses) and "
+                  "dotted_refused_iff (closed form of the verdict for every dotted quad) follow. The "
                   "mode exemption is the isinstance walk over the class hierarchy of mode_specs regenerated on every run "
                   "(only_local_mode_exempt: among all registered mode classes exactly LocalMode is exempt). Class facts "
                   "(loopback_exact4/6, rfc1918_private, shared_space_neither, classes_exclusive4/6, public samples) by the "
@@ -218,9 +224,10 @@ class Check(PropertyCheck):
                   "lists is refused by the translator) and tied by the `cls` cases; `addr & netmask == network` is modelled "
                   "as n / 2^k * 2^k == network. The classification itself is the standard library's (e.g. 192.0.0.8-192.0.0.169 "
                   "and 64:ff9b:1::/48 count as global in 3.12.1). The text parser model is tied differentially, not proved "
-                  "against a grammar; that it yields values below 2^32 is proved for IPv4 (parseV4_wf), for IPv6 the bound "
-                  "2^128 is a hypothesis (wf) of classOf_eq_membership / refused_iff_membership. mapped_scoped_equal_plain is "
-                  "stated for every text that parses to the mapped / plain address. handle_client is modelled only around "
+                  "against a grammar; what is proved about it: value bounds for every accepted text, and read-back of the two "
+                  "IPv4 text forms inet_ntop produces (the Lean renderers dotted / mappedText are tied to socket.inet_ntop by the "
+                  "`cls` cases). For other notations (hex mapped form, exploded / compressed IPv6, upper case) "
+                  "mapped_scoped_equal_plain keeps its parse hypotheses and the differential tie carries them. handle_client is modelled only around "
                   "the client_connected hook (layer execution is C09's subject). Abstentions: the oracle says nothing about "
                   "peer texts that denote no address (the hook raises, AddonManager logs it, the connection proceeds: "
                   "unparseable_not_refused) and nothing about `cls` cases (library tie only).")
@@ -442,7 +449,14 @@ class Check(PropertyCheck):
         if case["k"] == "cls":
             # the library's own answer for this integer (tie of the table AND of the membership transcription)
             a = ipaddress.IPv4Address(int(case["n"])) if case["fam"] == 4 else ipaddress.IPv6Address(int(case["n"]))
-            return {"cls": ",".join("true" if x else "false" for x in (a.is_loopback, a.is_private, a.is_global))}
+            out = {"cls": ",".join("true" if x else "false" for x in (a.is_loopback, a.is_private, a.is_global))}
+            if case["fam"] == 4:
+                # the OS' own text forms (inet_ntop) of the address and of its IPv4-mapped IPv6 address: tie of the Lean
+                # renderers `dotted` / `mappedText` that the read-back theorems are stated for
+                import socket
+                out["ntop"] = (hx(socket.inet_ntop(socket.AF_INET, a.packed).encode()) + " " +
+                               hx(socket.inet_ntop(socket.AF_INET6, b"\0" * 10 + b"\xff\xff" + a.packed).encode()))
+            return out
         peer = peer_text(case)
         h, w = e.run(peer, case["mode"], case["bg"], case["bp"])
         err = h.client.error
@@ -518,18 +532,20 @@ class Check(PropertyCheck):
         if case["k"] == "hist":
             return [l for st in case["steps"] for l in self.model_lines(st)]
         if case["k"] == "cls":
-            return [f"cls {case['fam']} {case['n']}"]
+            return [f"cls {case['fam']} {case['n']}"] + ([f"render4 {case['n']}"] if case["fam"] == 4 else [])
         return [f"decide {hx(peer_text(case).encode('utf-8', 'surrogateescape'))} {case['mode']} {case['bg']} {case['bp']}"]
 
     def model_obs(self, case, replies):
         # the Lean verdict is stateless: every call of a history is compared with the stateless model
+        if case["k"] == "cls": return " | ".join(replies)
         return list(replies) if case["k"] == "hist" else replies[0]
 
     def impl_view(self, case, obs):
         if case["k"] == "hist":
             return [self.impl_view(st, o) for st, o in zip(case["steps"], obs["steps"])]
         if case["k"] == "cls":
-            return obs["cls"] + " " + obs["cls"]      # table class and membership class must both be the library's
+            # table class and membership class must both be the library's; IPv4: the renderers must be inet_ntop's
+            return obs["cls"] + " " + obs["cls"] + (" | " + obs["ntop"] if "ntop" in obs else "")
         return obs["verdict"] + " " + ",".join(obs["trace"])
 
     def classify(self, case, obs):
